@@ -257,6 +257,15 @@ def entries():
     add("ConditionalIndependentBernoulli/identity-encoder", "dist", lambda: D.ConditionalIndependentBernoulli([3]), (lambda n, g: (torch.rand(n, 3, generator=g) < 0.5).float()), _rn(3), flags={"sample", "needs_ctx", "discrete", "mean", "noparams"})
     add("ConditionalIndependentBernoulli", "dist", lambda: D.ConditionalIndependentBernoulli([3], context_encoder=torch.nn.Linear(2, 3)), (lambda n, g: (torch.rand(n, 3, generator=g) < 0.5).float()), _rn(2), flags={"sample", "needs_ctx", "discrete", "mean"})
     add("MADEMoG/one-feature", "dist", lambda: MADEMoG(1, 8, context_features=None, num_blocks=1, num_mixture_components=3), _rn(1), flags={"sample", "nonreparam"})
+    def mog_dominated():
+        # one component has died during training: its logit sits far below the others (its weight underflows to
+        # exactly zero, in double precision too); the density and its gradients are those of the two others
+        m = MADEMoG(2, 8, context_features=None, num_blocks=1, num_mixture_components=3)
+        with torch.no_grad():
+            m._made.final_layer.bias[6::9] = -800.0     # the logit of component 3, for every feature
+        return m
+
+    add("MADEMoG/dead-component", "dist", mog_dominated, _rn(2), flags={"sample", "nonreparam"})
     add("MADEMoG", "dist", lambda: MADEMoG(3, 8, context_features=2, num_blocks=1, num_mixture_components=3), _rn(3), _rn(2), flags={"sample", "needs_ctx", "nonreparam"})
     # ---- flows
     add("Flow(LU+MAF|Normal)", "flow", lambda: FL.base.Flow(TR.CompositeTransform([TR.LULinear(3, identity_init=False), TR.MaskedAffineAutoregressiveTransform(3, 8, num_blocks=1)]), D.StandardNormal([3])), _rn(3), flags={"sample"})
